@@ -31,13 +31,13 @@ def _p(explanation, not_decided, rules, assumptions=None):
 def registry():
     R = {}
     R["C01"] = _p(
-        "Decides structural clauses of C01 on the typed HIR of src/xlsx: the two cell walkers move the row/column cursor identically (R-SIB-XLSX); a <c> with an `r` attribute is reported at the (row, col) that attribute decodes to, in that order, and otherwise at the running cursor (R-CELLPOS); the declared <dimension> only sizes capacity hints (R-DIM); running min/max of the bounding box are updated independently (R-MINMAX); element names are matched prefix-insensitively and like with like (R-NS); parts are opened only through the case-insensitive resolver (R-PART); the `t` attribute maps to the documented variants (R-TAB-T) and error literals to error kinds (R-TAB-ERR); shared-string and style indices are parsed as usize (R-IDXWIDTH); Empty cells are filtered before every push (R-TIGHT) and Empty means exactly the Empty variant (R-EMPTYDEF); readers expand empty elements and never trim (R-XMLCFG); the shared-string table gets one entry per <si> (R-SST); every Text/CData piece of an element is unescaped and appended, never assigned (R-CDATA); phonetic runs never reach the value of a string (R-RPH).",
+        "Decides structural clauses of C01 on the typed HIR of src/xlsx: the two cell walkers move the row/column cursor identically (R-SIB-XLSX); a <c> with an `r` attribute is reported at the (row, col) that attribute decodes to, in that order, and otherwise at the running cursor (R-CELLPOS); the declared <dimension> only sizes capacity hints (R-DIM); running min/max of the bounding box are updated independently (R-MINMAX); element names are matched prefix-insensitively and like with like (R-NS); parts are opened only through the case-insensitive resolver (R-PART); the `t` attribute maps to the documented variants (R-TAB-T) and error literals to error kinds (R-TAB-ERR); shared-string and style indices are parsed as usize (R-IDXWIDTH); Empty cells are filtered before every push (R-TIGHT) and Empty means exactly the Empty variant (R-EMPTYDEF); readers expand empty elements and never trim (R-XMLCFG); the shared-string table gets one entry per <si> (R-SST); every Text/CData piece of an element is unescaped and appended, never assigned (R-CDATA); phonetic runs never reach the value of a string (R-RPH); attributes are looked up by their full name (R-ATTRKEY).",
         "A1 -> (row, col) arithmetic, number parsing, relationship-target normalisation, the zip layer; an identical edit applied to both walkers",
-        [S.r_sib_xlsx, W.r_dim, X.r_ns, X.r_part, T.r_tab_t, T.r_tab_err, S.r_tight, X.r_xmlcfg, part(W.r_sst, only=["xlsx shared"]), W.r_minmax, X.r_cdata, U.r_cellpos, U.r_idxwidth, U.r_emptydef, X.r_rph])
+        [S.r_sib_xlsx, W.r_dim, X.r_ns, X.r_part, T.r_tab_t, T.r_tab_err, S.r_tight, X.r_xmlcfg, part(W.r_sst, only=["xlsx shared"]), W.r_minmax, X.r_cdata, U.r_cellpos, U.r_idxwidth, U.r_emptydef, X.r_rph, U3.r_attrkey])
     R["C02"] = _p(
-        "Decides structural clauses of C02 on src/xls.rs: the sheet-substream dispatch has an arm feeding the cell vector for each record kind the property names (R-TAB-REC); BoolErr / FormulaValue error codes follow MS-XLS BErr (R-TAB-ERR); every length guard that raises Len { expected: E } is exactly `len < E` (R-LENGUARD); the RK divide-by-100 flag divides by 100 and the 30-bit integer comes from an arithmetic shift of an i32 (R-RK); DIMENSIONS only sizes a reserve (R-DIM); bounding-box min/max are independent (R-MINMAX); per-sheet accumulators are appended to, never reassigned (R-ACCUM); shared strings that continue into CONTINUE records re-read the compression flag, skip rich/extended data in order and dequeue fragments first-in first-out (R-CONT); the text of a string-valued formula is stored at the position of the last FORMULA record, state that only the FORMULA and STRING arms touch (R-FMLAPOS); the FormulaValue kinds 0..3 are told apart under the 0xFFFF marker and their payload is byte 2 (R-TAB-FMLAVAL).",
+        "Decides structural clauses of C02 on src/xls.rs: the sheet-substream dispatch has an arm feeding the cell vector for each record kind the property names (R-TAB-REC); BoolErr / FormulaValue error codes follow MS-XLS BErr (R-TAB-ERR); every length guard that raises Len { expected: E } is exactly `len < E` (R-LENGUARD); the RK divide-by-100 flag divides by 100 and the 30-bit integer comes from an arithmetic shift of an i32 (R-RK); DIMENSIONS only sizes a reserve (R-DIM); bounding-box min/max are independent (R-MINMAX); per-sheet accumulators are appended to, never reassigned (R-ACCUM); shared strings that continue into CONTINUE records re-read the compression flag, skip rich/extended data in order and dequeue fragments first-in first-out (R-CONT); the text of a string-valued formula is stored at the position of the last FORMULA record, state that only the FORMULA and STRING arms touch (R-FMLAPOS); the FormulaValue kinds 0..3 are told apart under the 0xFFFF marker and their payload is byte 2 (R-TAB-FMLAVAL); compressed and 16-bit characters go through the one workbook decoder (R-DBCS-ENC).",
         "IEEE bit arithmetic, MULRK column arithmetic, string decoding inside encoding_rs",
-        [T.r_tab_rec, T.r_tab_err, W.r_dim, W.r_minmax, M.r_rk, M.r_accum, W.r_cont, U.r_lenguard, U3.r_fmlapos, U3.r_tab_fmlaval])
+        [T.r_tab_rec, T.r_tab_err, W.r_dim, W.r_minmax, M.r_rk, M.r_accum, W.r_cont, U.r_lenguard, U3.r_fmlapos, U3.r_tab_fmlaval, U.r_dbcs_enc, U3.r_dbcs_out])
     R["C03"] = _p(
         "Decides structural clauses of C03 on src/xlsb: sibling agreement of next_cell / next_formula on record framing, row state, record ids and position computation (R-SIB-XLSB); error-code table (R-TAB-ERR); BrtWsDim only sizes capacity hints (R-DIM); Empty filter and header-row filter of the lazy range builder (R-TIGHT); the record-header decoders read at most 2 (type) / 4 (size) bytes of 7 bits each with shifts 7, 14, 21 -- partial evaluation of their MIR with the input bytes unknown (R-VARINT).",
         "RK arithmetic beyond the flag handling, wide_str decoding",
@@ -51,9 +51,9 @@ def registry():
         "dependencies (zip, quick-xml, encoding_rs, codepage); time / memory constants",
         [X.r_eof, W.r_rangepre, M.r_chase, Z.r_mir, U.r_ioamt, U.r_dbcs_progress, U.r_cfbres, U.r_ovbachunk])
     R["C07"] = _p(
-        "Decides: the write footprint of every public read method of the four reader structs is limited to the archive cursor and designated setters/loaders, and no reader stores a cursor (R-FRAME); every Sheets method forwards to the same method of the wrapped reader (R-DELEG); worksheet_range_at & co use n itself (R-AT); worksheets() goes through worksheet_range or the very field it returns (R-WS); unknown names reach WorksheetNotFound (R-NOTFOUND); From<DataRef> for Data preserves variants (R-TAB-FROM); a zip lacking the format's mandatory part is rejected so that auto-detection cannot pick the wrong reader (R-AUTODETECT); a borrowed range / cell reader keeps the workbook exclusively borrowed (compile_fail witnesses with compiling twins, R-WITNESS).",
+        "Decides: the write footprint of every public read method of the four reader structs is limited to the archive cursor and designated setters/loaders, and no reader stores a cursor (R-FRAME); every Sheets method forwards to the same method of the wrapped reader (R-DELEG); worksheet_range_at & co use n itself (R-AT); worksheets() goes through worksheet_range or the very field it returns (R-WS); unknown names reach WorksheetNotFound (R-NOTFOUND); From<DataRef> for Data preserves variants (R-TAB-FROM); a zip lacking the format's mandatory part is rejected so that auto-detection cannot pick the wrong reader (R-AUTODETECT); a borrowed range / cell reader keeps the workbook exclusively borrowed (compile_fail witnesses with compiling twins, R-WITNESS); the xlsx table / merged-region caches are written only after the last fallible step of their loader (R-CACHEATOMIC).",
         "equality of values across calls beyond the frame condition (zip / XML determinism is trusted)",
-        [W.r_frame, S.r_deleg, S.r_at, S.r_ws, S.r_notfound, T.r_tab_from, W.r_autodetect, N.r_witness])
+        [W.r_frame, S.r_deleg, S.r_at, S.r_ws, S.r_notfound, T.r_tab_from, W.r_autodetect, N.r_witness, U3.r_cacheatomic])
     R["C08"] = _p(
         "Decides: options.header_row has one writer and is re-read on every call (R-FRAME); the lazy filter keeps rows >= n and pads at row n iff needed (R-TIGHT); the eager readers window the stored range as range((n, start.1), end) with n from HeaderRow::Row and start/end of the stored range (R-HDRWIN); Range::range is only reached with start <= end established (R-RANGEPRE); the declared dimension never decides what is returned (R-DIM); Sheets::with_header_row delegates (R-DELEG).",
         "value equality between the eager (xls, ods) and lazy (xlsx, xlsb) implementations",
@@ -63,13 +63,13 @@ def registry():
         "values of the casts themselves, serde's own behaviour",
         [W.r_iter, W.r_pos, T.r_tab_de, W.r_hdr, W.r_mapkey, U.r_intcast, U.r_numparse, U.r_intarm, U.r_emptydef, U3.r_pos_everyrow, U3.r_hdr_all])
     R["C10"] = _p(
-        "Decides: numeric Data/DataRef variants are built in the three readers only through formats::format_excel_* whose format operand comes from the cell's style lookup and whose date-system operand from the reader flag (R-NUMCTOR); the xlsb style index is the 24-bit iStyleRef only (R-XLSBCELL), xlsx style indices are parsed as usize (R-IDXWIDTH); the two built-in id tables agree with each other and with ECMA-376 18.8.30 (R-TAB-FMT); declared formats win over built-in ids (R-FMTPREC); format kind -> DateTime/TimeDelta flavour (R-TAB-FMTKIND); format codes are unescaped (R-UNESC); style tables get one entry per xf (R-SST); the scanner's decision table is evaluated over a finite abstract input space against 13 clauses (R-FMT-SCAN).",
+        "Decides: numeric Data/DataRef variants are built in the three readers only through formats::format_excel_* whose format operand comes from the cell's style lookup and whose date-system operand from the reader flag (R-NUMCTOR); the xlsb style index is the 24-bit iStyleRef only (R-XLSBCELL), xlsx style indices are parsed as usize (R-IDXWIDTH); the two built-in id tables agree with each other and with ECMA-376 18.8.30 (R-TAB-FMT); declared formats win over built-in ids (R-FMTPREC); format kind -> DateTime/TimeDelta flavour (R-TAB-FMTKIND); format codes are unescaped (R-UNESC); style tables get one entry per xf (R-SST); the scanner's decision table is evaluated over a finite abstract input space against 13 clauses (R-FMT-SCAN); the constructor every date value goes through stores value, flavour and date system unchanged (R-DTNEW); cell attributes (s, t, r) are looked up by their full name (R-ATTRKEY).",
         "the full number-format grammar (R-FMT-SCAN decides the per-character decision table of the scanner against the clauses the property states, not the language as a whole)",
-        [W.r_numctor, T.r_tab_fmt, T.r_tab_fmtkind, part(W.r_sst, only=["cellXfs", "XF table"]), W.r_fmtprec, M.r_unesc, Q.r_fmt_scan, U.r_xlsbcell, U.r_idxwidth])
+        [W.r_numctor, T.r_tab_fmt, T.r_tab_fmtkind, part(W.r_sst, only=["cellXfs", "XF table"]), W.r_fmtprec, M.r_unesc, Q.r_fmt_scan, U.r_xlsbcell, U.r_idxwidth, U3.r_dtnew, U3.r_attrkey])
     R["C11"] = _p(
-        "Decides, for feature `dates`: totality -- every chrono call reachable in the date conversions is a fallible/checked API or has constant operands, so a serial beyond the representable calendar yields None rather than a panic (R-PANIC-DATES); the constants of the conversion follow the date-system table: epoch 1899-12-30, 1462 days between the systems, 86 400 000 ms per day, both conversions scaled by it (R-DATE-TABLE); the 1900 leap-day shim (+1 day below serial 60) is decided on the value after the 1904 offset and on the right branch (R-DATE-ORDER); the millisecond count is never cast to an unsigned type (R-DATE-SIGN); as_date / as_time are components of as_datetime or parsed ISO text, never built from numbers of their own (R-DATE-COMP).",
+        "Decides, for feature `dates`: totality -- every chrono call reachable in the date conversions is a fallible/checked API or has constant operands, so a serial beyond the representable calendar yields None rather than a panic (R-PANIC-DATES); the constants of the conversion follow the date-system table: epoch 1899-12-30, 1462 days between the systems, 86 400 000 ms per day, both conversions scaled by it (R-DATE-TABLE); the 1900 leap-day shim (+1 day below serial 60) is decided on the value after the 1904 offset and on the right branch (R-DATE-ORDER); the millisecond count is never cast to an unsigned type (R-DATE-SIGN); as_date / as_time are components of as_datetime or parsed ISO text, never built from numbers of their own (R-DATE-COMP); a whole/remainder split never pairs floor with `%` (R-DATE-SPLIT); the trait's default conversions select by cell variant, never by the payload's format flavour (R-DATE-VARIANT); the constructor stores its arguments unchanged (R-DTNEW).",
         "the floating-point rounding to the millisecond, monotonicity as a numeric fact, Int/Float cells converting like 1900-system date-times beyond their routing through ExcelDateTime",
-        [D.r_c11, D.r_c11_conv])
+        [D.r_c11, D.r_c11_conv, U3.r_date_split, U3.r_date_variant, U3.r_dtnew])
     R["C12"] = _p(
         "Decides: after a fragment switch inside a character run the compression flag is re-read and its byte consumed; rich-text runs then extended data are skipped unconditionally in order; Record::skip consumes no flag byte (R-CONT); the SST gets one entry per item (R-SST); the character loop always advances or fails (R-DBCS-PROGRESS); all three storage forms are decoded by the one workbook decoder after widening (R-DBCS-ENC), and nothing reaches the output string except through it (R-DBCS-ENC out).",
         "8/16-bit decoding arithmetic inside encoding_rs",
@@ -79,21 +79,21 @@ def registry():
         "sector offset arithmetic, chain order",
         [T.r_tab_cfb, W.r_cfbflow, M.r_cfbdir, M.r_chase, U.r_cfbclone, U.r_cfbtab, U.r_cfbver, U.r_bookorder, U3.r_cfblen])
     R["C14"] = _p(
-        "Decides: operator tokens (R-TAB-OP) and error literals (R-TAB-ERR) of both token decoders follow MS-XLS/MS-XLSB; operand tokens push one entry and consume the payload width of the spec, reference tokens render the column masked to 14 bits with `$` exactly on the absolute components from the right payload bytes (R-TAB-PTG); formula cell positions through the sibling rules (R-SIB-XLSX, R-SIB-XLSB); defined-name tables get one entry per record so name tokens resolve (R-SST); both decoders keep the same operand-stack / output-buffer discipline per token class (R-SIB-PTG); PtgAttr sub-token widths follow the spec incl. the variable PtgAttrChoose table (R-TAB-ATTR); 3-D references and defined names reach their sheet through ExternSheet (R-XTI); every digit of a column index reaches the rendered letters (R-DIGITS, must-use on MIR); explicit cell references decide formula positions (R-CELLPOS); the token stream of a defined name is located from the record end or by the byte count of the name, never by its character count (R-LBLRGCE).",
+        "Decides: operator tokens (R-TAB-OP) and error literals (R-TAB-ERR) of both token decoders follow MS-XLS/MS-XLSB; operand tokens push one entry and consume the payload width of the spec, reference tokens render the column masked to 14 bits with `$` exactly on the absolute components from the right payload bytes (R-TAB-PTG); formula cell positions through the sibling rules (R-SIB-XLSX, R-SIB-XLSB); defined-name tables get one entry per record so name tokens resolve (R-SST); both decoders keep the same operand-stack / output-buffer discipline per token class (R-SIB-PTG); PtgAttr sub-token widths follow the spec incl. the variable PtgAttrChoose table (R-TAB-ATTR); 3-D references and defined names reach their sheet through ExternSheet (R-XTI); every digit of a column index reaches the rendered letters (R-DIGITS, must-use on MIR); explicit cell references decide formula positions (R-CELLPOS); the token stream of a defined name is located from the record end or by the byte count of the name, never by its character count (R-LBLRGCE); the string helper reports the byte count, not the character count (R-STRBYTES returns-bytes).",
         "the digit arithmetic of push_column beyond the must-use clause, function-name table contents",
-        [T.r_tab_op, T.r_tab_err, G.r_tab_ptg, S.r_sib_xlsx, S.r_sib_xlsb, part(W.r_sst, only=["Lbl", "BrtName"]), U.r_xti, U.r_digits, U.r_sib_ptg, U.r_cellpos, U.r_tab_attr, U.r_strbytes, U.r_trunc, U.r_names1to1, U.r_charcast, M.r_unesc, U3.r_lblrgce])
+        [T.r_tab_op, T.r_tab_err, G.r_tab_ptg, S.r_sib_xlsx, S.r_sib_xlsb, part(W.r_sst, only=["Lbl", "BrtName"]), U.r_xti, U.r_digits, U.r_sib_ptg, U.r_cellpos, U.r_tab_attr, U.r_strbytes, U.r_trunc, U.r_names1to1, U.r_charcast, M.r_unesc, U3.r_lblrgce, U3.r_strret])
     R["C16"] = _p(
-        "Decides: metadata vectors are filled by order-preserving operations only (R-ORDER); visibility and sheet-kind tables follow the specs (R-TAB-VIS, R-TAB-TYP); the date-system element is matched prefix-insensitively (R-NS) and the flag reaches every number conversion (R-NUMCTOR) and accepts both boolean spellings without being reset by attribute-less extension elements (R-TAB-1904); xls defined names resolve their sheet through ExternSheet (R-XTI) and their reference is located by bytes, not characters (R-LBLRGCE).",
+        "Decides: metadata vectors are filled by order-preserving operations only (R-ORDER); visibility and sheet-kind tables follow the specs (R-TAB-VIS, R-TAB-TYP); the date-system element is matched prefix-insensitively (R-NS) and the flag reaches every number conversion (R-NUMCTOR) and accepts both boolean spellings without being reset by attribute-less extension elements (R-TAB-1904); xls defined names resolve their sheet through ExternSheet (R-XTI) and their reference is located by bytes, not characters (R-LBLRGCE); references in defined names render their column with the 14-bit mask and `$` flags of the spec (R-TAB-PTG); the workbook part is found case-insensitively (R-PART); date values keep the workbook's date system (R-DTNEW).",
         "exact name decoding",
-        [W.r_order, T.r_tab_vis, T.r_tab_typ, X.r_ns, W.r_numctor, M.r_tab_1904, M.r_unesc, U.r_xti, U.r_benign, U.r_strbytes, part(W.r_sst, only=["Lbl", "BrtName"]), U.r_names1to1, U3.r_lblrgce])
+        [W.r_order, T.r_tab_vis, T.r_tab_typ, X.r_ns, W.r_numctor, M.r_tab_1904, M.r_unesc, U.r_xti, U.r_benign, U.r_strbytes, part(W.r_sst, only=["Lbl", "BrtName"]), U.r_names1to1, U3.r_lblrgce, U3.r_dtnew, G.r_tab_ptg, X.r_part])
     R["C17"] = _p(
         "Decides: guarded header/totals adjustments use their own field and regions/tables are attributed to the scanned sheet (R-TBL); per-table defaults are re-initialised per table (R-TBLFRESH); element loops end only at the closing tag, end of input or error (R-COUNTHINT); merge regions accumulate (R-ACCUM); worksheet_merge_cells_at(n) uses the n-th sheet name (R-AT); mergeCell / table elements are matched prefix-insensitively (R-NS); column names are unescaped (R-UNESC); cache fields are written only by their loaders (R-FRAME); Range::range precondition before table windowing (R-RANGEPRE).",
         "coordinate arithmetic",
         [W.r_tbl, W.r_frame, W.r_rangepre, M.r_accum, M.r_tblfresh, M.r_counthint, M.r_unesc, S.r_at, X.r_ns])
     R["C18"] = _p(
-        "Decides structural clauses of C18 (narrow): the MODULE record walk of the dir stream checks the record ids of [MS-OVBA] 2.3.4.2.3.2 in order, each as a fixed or variable-length record (R-TAB-VBADIR); a module's name, stream name and offset come from the MODULENAME, MODULESTREAMNAME and MODULEOFFSET records, its content is decompress_stream(stream[offset..]) of the stream of that name stored under the module's name, and its text is decoded with the code page read from the project (R-VBAMOD); the framing constants of the decompressor -- container and chunk signatures, header masks, raw-chunk size, BitCount range 4..16, length + 3, offset + 1, LengthMask / OffsetMask -- follow [MS-OVBA] 2.4.1 (R-TAB-OVBA); a flag byte is read only after the chunk-exhaustion test (R-OVBACHUNK) and the chunk start is taken per chunk (R-OVBASTART); both branches of the control-reference record end after its reserved id (R-VBAREF).  Robustness of the decompressor on hostile input is decided under C06.",
+        "Decides structural clauses of C18 (narrow): the MODULE record walk of the dir stream checks the record ids of [MS-OVBA] 2.3.4.2.3.2 in order, each as a fixed or variable-length record (R-TAB-VBADIR); a module's name, stream name and offset come from the MODULENAME, MODULESTREAMNAME and MODULEOFFSET records, its content is decompress_stream(stream[offset..]) of the stream of that name stored under the module's name, and its text is decoded with the code page read from the project (R-VBAMOD); the framing constants of the decompressor -- container and chunk signatures, header masks, raw-chunk size, BitCount range 4..16, length + 3, offset + 1, LengthMask / OffsetMask -- follow [MS-OVBA] 2.4.1 (R-TAB-OVBA); a flag byte is read only after the chunk-exhaustion test (R-OVBACHUNK) and the chunk start is taken per chunk (R-OVBASTART); both branches of the control-reference record end after its reserved id (R-VBAREF); the fixed-width fields of the reference records are skipped by the widths of [MS-OVBA] 2.3.4.2.2 (R-TAB-VBAREF).  Robustness of the decompressor on hostile input is decided under C06.",
         "that decompression inverts compression (the copy loop, token arithmetic on concrete values), the reference records, project information records other than the code page",
-        [V.r_tab_vbadir, V.r_vbamod, V.r_tab_ovba, U.r_ovbachunk, V.r_vbaref, V.r_ovbastart])
+        [V.r_tab_vbadir, V.r_vbamod, V.r_tab_ovba, U.r_ovbachunk, V.r_vbaref, V.r_ovbastart, U3.r_tab_vbaref])
     R["C19"] = _p(
         "Decides: shared-string tables get one entry per item (R-SST); every text-accumulating event match handles Text and CData, unescapes and appends (R-CDATA); readers never trim and always expand empty elements (R-XMLCFG); phonetic flag set/cleared in pairs and guarding <t> (R-RPH); prefix-insensitive element matching incl. rich-text closing tags (R-NS); text attributes are unescaped (R-UNESC); CONTINUE handling of xls strings (R-CONT) and the single-decoder rule for their storage forms (R-DBCS-ENC); xlsb strings go through a UTF-16 decoder (R-UTF16); ods paragraphs (R-ODSPARA); item loops are not cut at declared counts (R-COUNTHINT); xlsb record sizes keep all 28 bits (R-VARINT).",
         "per-character decoding in dependencies (encoding_rs, quick-xml entity expansion)",
